@@ -218,8 +218,13 @@ def safe_str(value) -> str:
     try:
         value_str = str(value)
     except BaseException:
-        # it is possible for str to fail if there is a custom __str__ function
-        value_str = f'{type(value)}@{id(value)}'
+        if type(value) is int:
+            # a number with more digits than the interpreter converts to decimal text (sys.set_int_max_str_digits):
+            # hexadecimal has no such limit, the value is shown all the same
+            value_str = hex(value)
+        else:
+            # it is possible for str to fail if there is a custom __str__ function
+            value_str = f'{type(value)}@{id(value)}'
     return value_str.encode('utf-8', 'backslashreplace').decode('utf-8')
 
 
